@@ -59,6 +59,7 @@ Inductive cev (cr : string -> cstate -> cstate -> Prop) : event -> cstate -> cst
 | c_query s c' :
     (forall k, c' k = cch s k \/ (cch s k = None /\ c' k = Some (view k (flds s)))) ->
     cev cr (EPure true) s (mkcs (flds s) c')
+| c_inherit s c' : (forall k v, c' k = Some v -> v = view k (flds s)) -> cev cr EInherit s (mkcs (flds s) c')
 | c_call n s s' : cr n s s' -> cev cr (ECall n) s s'
 | c_skip e s : inert e = true -> cev cr e s s.
 
@@ -98,7 +99,7 @@ Lemma ev_sound (cr : string -> cstate -> cstate -> Prop) ac :
   forall e s s' a, cev cr e s s' -> coh a s -> coh (aev ac e a) s'.
 Proof.
   intros Hc e s s' a Hev Hcoh.
-  destruct Hev as [f x s | s | s | k0 s | s c' Hq | n s s' Hcall | e s Hin]; simpl.
+  destruct Hev as [f x s | s | s | k0 s | s c' Hq | s c' Hi | n s s' Hcall | e s Hin]; simpl.
   - (* mutation of field f *)
     intro k. specialize (Hcoh k). unfold claim in *. simpl.
     destruct (a k) eqn:Ea; simpl; try exact Hcoh; try exact I.
@@ -121,6 +122,7 @@ Proof.
       * apply Hcoh. exact Hv.
       * inversion Hv. reflexivity.
     + exact I.
+  - intro k. simpl. apply Hi.
   - eapply Hc; eassumption.
   - destruct e; simpl in Hin; try discriminate; try exact Hcoh.
     destruct c; [discriminate | exact Hcoh].
@@ -180,6 +182,26 @@ Proof.
   pose proof (path_sound _ _ (call_sound tbl FUEL) p s s' coherent_st Hp (coherent_coh s Hc)) as Hs.
   intros k v Hv. specialize (Hs k). pose proof (no_stale_spec _ Hok k) as Hk.
   destruct (apath (acall tbl FUEL) p coherent_st k); simpl in Hs.
+  - rewrite Hs in Hv. discriminate.
+  - apply Hs. exact Hv.
+  - exfalso. apply Hk. reflexivity.
+Qed.
+
+Lemma coh_dirty s : coh dirty s.
+Proof. intro k. exact I. Qed.
+
+(* C18 / C17: the object a number fast path returns has a coherent cache, whatever state it started from *)
+Theorem derived_adequate tbl f p s s' :
+  fn_derived_ok tbl f = true -> In p (fpaths f) -> returns p = true ->
+  cpath (callrel tbl FUEL) p s s' -> coherent s'.
+Proof.
+  intros Hok Hin Hret Hp. unfold fn_derived_ok in Hok.
+  rewrite forallb_forall in Hok.
+  assert (Hf : In p (filter returns (fpaths f))) by (apply filter_In; split; assumption).
+  specialize (Hok p Hf).
+  pose proof (path_sound _ _ (call_sound tbl FUEL) p s s' dirty Hp (coh_dirty s)) as Hs.
+  intros k v Hv. specialize (Hs k). pose proof (no_stale_spec _ Hok k) as Hk.
+  destruct (apath (acall tbl FUEL) p dirty k); simpl in Hs.
   - rewrite Hs in Hv. discriminate.
   - apply Hs. exact Hv.
   - exfalso. apply Hk. reflexivity.
